@@ -88,6 +88,39 @@ def arc_families():
     return out
 
 
+def ellipse_families():
+    """rotated / elliptical lattice arcs against a radial line through a lattice point of the arc: one crossing, known exactly"""
+    from . import arcmodel as am
+    out = []
+    for A in ({'r': [5, 3], 'phi': 2, 'th': -5, 'dl': 9, 'c': [0, 0]}, {'r': [2, 7], 'phi': 3, 'th': 9, 'dl': -13, 'c': [1, 1]},
+              {'r': [5, 3], 'phi': -6, 'th': 0, 'dl': 17, 'c': [-2, 4]}, {'r': [5, 3], 'phi': 9, 'th': 4, 'dl': -8, 'c': [3, -2]},
+              {'r': [2, 7], 'phi': 26, 'th': -3, 'dl': 21, 'c': [0, 0]}, {'r': [5, 5], 'phi': 3, 'th': 1, 'dl': 10, 'c': [2, 2]}):
+        arc = am.concretise(A)
+        n = abs(A['dl'])
+        sg = 1 if A['dl'] > 0 else -1
+        cen = complex(*A['c'])
+        for j in (1, n // 2, n - 1):
+            P = am.lat_point(A, A['th'] + sg * j)
+            ln = sp.Line(cen + 0.4 * (P - cen), cen + 1.6 * (P - cen))
+            out.append(('A-L ellipse %s step %d' % (A, j), arc, ln, [(j / float(n), 0.5, P)]))
+            d = 1.2 * (P - cen)
+            a0 = cen + 0.4 * (P - cen)
+            out.append(('A-C ellipse %s step %d' % (A, j), arc, sp.CubicBezier(a0, a0 + d / 3, a0 + 2 * d / 3, a0 + d), [(j / float(n), 0.5, P)]))
+    return out
+
+
+def touching_from(a, b, t1, t2):
+    """soundness-only pairs derived from a constructed crossing: a line that starts exactly on curve `a` (its start is the
+    crossing point), one that starts 1e-10 short of it and one that starts 1e-10 beyond it"""
+    P = a.point(t1)
+    d = b.derivative(t2)
+    d = d / abs(d) * 3.0
+    out = []
+    for eps, name in ((0.0, 'starts on the curve'), (1e-10, 'starts just beyond the curve'), (-1e-10, 'starts just before the curve')):
+        out.append((name, a, sp.Line(P + eps * d, P + d)))
+    return out
+
+
 def path_families():
     """two paths whose crossings lie strictly inside segments: (path1, path2, [(i1, i2, point)])"""
     Ln = sp.Line
